@@ -5,6 +5,20 @@ ROOT = os.path.dirname(os.path.dirname(os.path.abspath(__file__)))
 ids = [json.loads(l)["id"] for l in open(os.path.join(ROOT, "properties.jsonl"))]
 
 CLAIMED = {
+ "C12": dict(
+   text="Lean 4 theorems over the OAuth 1.0 provider state machine Model/OAuth1Flow.lean (temporary credential request, user authorisation, token request, "
+        "protected resource access, clock): exchangeCheck_ok_spec + exchange_ok_implies (token credentials only for a temporary credential in the store, bound to the "
+        "requesting client, with the verifier issued at authorisation, signed with client secret + temporary secret by a configured method; bound to the approving user; "
+        "the temporary credential is consumed), temp_single_use (INVARIANT over ALL histories: at most one token credential per temporary credential and a redeemed one "
+        "is gone), access_ok_implies, only_configured_methods, nonces_monotone_run + nonce_tuple_accepted_at_most_once (after a served request, for EVERY later history a "
+        "request with the same client, token, timestamp and nonce is refused), old_timestamp_refused. Correspondence: random walks and directed attack histories "
+        "(replay, other client, wrong verifier, unsigned, wrong method, stale timestamp) against the real OAuth1 provider classes, requests signed by the real client; "
+        "per-step outputs and final store compared; history oracle written from the statement.",
+   note="Trusted: Lean kernel; reference integrator harness/mem1.py (in-memory nonce/credential store with the documented exists_nonce semantics); the signature "
+        "primitive is abstracted to 'signed with (client secret, token secret)' — base string and signing are C11's subject; PLAINTEXT without timestamp/nonce is exempt "
+        "from the replay check exactly as the code does.",
+   technique="Lean 4 proof (step characterisation + invariants by induction over all histories) + differential correspondence on histories + statement oracle",
+   design="§4 C12"),
  "C06": dict(
    text="Lean 4 theorems over the provider state machine Model/Provider.lean (authorize, redeem with PKCE, device authorize / user decision / poll, clock): "
         "redeemCheck_ok_spec + redeem_token_implies (a token is issued for a code only if the code is in the store — i.e. issued here and unconsumed —, belongs to the "
